@@ -393,6 +393,20 @@ func c08CLI(c *gen.Ctx) error {
 	r := c.R
 	flags := []string{"known-failing", "known-flaky", "run", "skip"}
 	var jobs []any
+	// a pattern is an arbitrary string: whatever characters it holds (separators of other
+	// syntaxes, quotes, format verbs, shell metacharacters), it is the pattern, whole and unsplit,
+	// whether it came from the command line or from a file
+	decos := []string{",x", ",zz/y/**", ", w", "\"q\"", "\"", "'s'", " sp ace", "=v", "\\b", "%d%s", ";z", "[1,2]", "$HOME", "{a,b}", "|c", "&d", "\tt", "<e>", "`f`", "(g)", "!h", "~i", "é/ü", ",", ",,"}
+	deco := func(p string) string {
+		if r.Chance(1, 2) {
+			return p
+		}
+		p += gen.Pick(r, decos)
+		if r.Chance(1, 4) {
+			p += "/" + gen.Pick(r, []string{"*", "**", "t"}) + gen.Pick(r, decos)
+		}
+		return p
+	}
 	mk := func(flag string, shape []int, id int) c08CliIn {
 		// shape[i] = 0: plain pattern, k>0: a file with k entries (plus noise lines)
 		var in c08CliIn
@@ -400,13 +414,13 @@ func c08CLI(c *gen.Ctx) error {
 		cnt := 0
 		for _, s := range shape {
 			if s == 0 {
-				in.Args = append(in.Args, fmt.Sprintf("zz%d/p%d", id, cnt))
+				in.Args = append(in.Args, deco(fmt.Sprintf("zz%d/p%d", id, cnt)))
 				cnt++
 				continue
 			}
 			var lines []string
 			for k := 0; k < s; k++ {
-				p := fmt.Sprintf("zz%d/p%d", id, cnt)
+				p := deco(fmt.Sprintf("zz%d/p%d", id, cnt))
 				cnt++
 				switch r.Intn(4) {
 				case 0:
